@@ -120,11 +120,44 @@ class Executor(Exec):
             return self.call_builtin(st, fv.name, args, kwargs, node)
         if isinstance(fv, VFunc):
             return self.call_hashfunc(st, fv, args, kwargs)
+        if isinstance(fv, VStr) and isinstance(f, ast.Attribute):
+            return self.call_method_value(st, f, fv, args, kwargs)
         if isinstance(fv, VOpaque) and fv.desc.startswith("digest:"):
             return fv
         if isinstance(fv, VOpaque) and fv.desc == "foreign":
             return VOpaque("foreign")
         raise Unsupported(f"call of {fv}")
+
+    def call_method_value(self, st, f, fv, args, kwargs):
+        """call of a bound method stored in a field (CountMinSketch.__query_method): case split over the
+        methods of the class whose name ends in `_query`, each through its own contract"""
+        recv = self.eval(f.value, st)
+        if not isinstance(recv, VRef):
+            raise Unsupported("call of a method value on a non-object")
+        cands = [n for k in self.repo.mro(recv.cls) for n in self.repo.classes[k].methods if n.endswith("_query")]
+        if not cands:
+            raise Unsupported("call of a method-valued field: no candidate methods")
+        from .values import str_code
+        res = None
+        conds = []
+        for n in sorted(set(cands)):
+            code = z3.IntVal(str_code("method:" + n.lstrip("_")))
+            cond = fv.t == code
+            conds.append(cond)
+            st.pc.append(cond)
+            mark = len(st.pc)
+            saved_cls = self.defcls
+            try:
+                r = self.call_method(st, recv, n, list(args), dict(kwargs))
+            finally:
+                self.defcls = saved_cls
+            learned = st.pc[mark:]
+            del st.pc[mark - 1:]
+            for fact in learned:
+                st.pc.append(z3.Implies(cond, fact))
+            res = r if res is None else self.ite(st, cond, r, res)
+        self.oblige(st, f"L{self.cur_line}.method_value_is_a_query_method", z3.Or(*conds))
+        return res
 
     def eval_args(self, node, st):
         args = []
@@ -214,7 +247,11 @@ class Executor(Exec):
         st.env = dict(st.env)
         mark = len(st.pc)
         try:
-            if isinstance(it, VRange):
+            if isinstance(it, VOpaque) and it.desc == "allkeys":
+                # every key (keys are Int-coded): unrestricted quantification
+                self.bind_target(st, g.target, VStr(j))
+                rng = z3.BoolVal(True)
+            elif isinstance(it, VRange):
                 # quantify over the value itself (clean triggers: a[k], not a[lo + k])
                 self.bind_target(st, g.target, VInt(j))
                 rng = z3.And(it.lo <= j, j < it.hi)
@@ -291,8 +328,9 @@ class Executor(Exec):
                     break
         c = None
         mname_ = fi.name if fi is not None else name
+        dispatched = self.repo.find_method(cls, mname_) if cls in self.repo.classes else None
         for k in mro:
-            # a contract written for this very receiver class: "Base.method@Receiver"
+            # a contract written for this very (body, receiver class) pair: "Base.method@Receiver"
             cand = CONTRACTS.get(f"{k}.{mname_}@{cls}")
             if cand is not None and (fi is None or fi.cls == k):
                 c = cand
@@ -300,11 +338,11 @@ class Executor(Exec):
             cand = CONTRACTS.get(f"{k}.{mname_}")
             if cand is None:
                 continue
-            # a contract covers a call only for receiver classes it is verified for (the body may dispatch on self)
-            if cls in cand.contexts or not cand.contexts:
-                if fi is None or fi.cls == k or cls in cand.contexts:
-                    c = cand
-                    break
+            # a plain contract is verified, for each receiver class in `contexts`, against the body that class
+            # dispatches to; it covers this call only if that is the body being called
+            if (not cand.contexts and fi is None) or (cls in cand.contexts and (fi is None or dispatched is fi)):
+                c = cand
+                break
         if c is not None:
             return self.call_contract(st, c, recv, args, kwargs, fi)
         if fi is not None:
@@ -419,7 +457,10 @@ class Executor(Exec):
             self.havoc_path(st, path, env)
         # 4. result
         rt = parse_type(c.returns)
-        res = self.fresh(st, rt, "ret_" + c.key.split(".")[-1])
+        if c.result_is is not None:
+            res = self.spec_eval(st, c.result_is, env, f"{c.key}.result_is")
+        else:
+            res = self.fresh(st, rt, "ret_" + c.key.split(".")[-1])
         # 5. postconditions
         self.old_stack.append(before)
         saved_result = self.result
